@@ -42,9 +42,8 @@ def showState (st : St) : String :=
 /-- the same state with heap and owner map re-tabulated over the created ids -/
 def compact (st : St) : St :=
   let recs := st.ids.map fun i => (i, st.s.heap i, st.s.owned i)
-  let h' : Heap := ⟨fun j => match recs.lookup j with | some (r, _) => r | none => {}⟩
-  let o' : Nat → Bool := fun j => match recs.lookup j with | some (_, b) => b | none => false
-  { st with s := { st.s with heap := h', owned := o' } }
+  let h' : Heap := ⟨recs.map fun (i, r, _) => (i, r)⟩
+  { st with s := { st.s with heap := h', ownedL := recs.map fun (i, _, b) => (i, b) } }
 
 def exec (st : St) (newIds : List Nat) (m : DM Unit) : St × String :=
   match m.run st.s with
